@@ -3,6 +3,7 @@
    sumor and their inlined basics); N, Z, positive and nat stay the extracted inductive types. *)
 Require Import Extraction.
 Require Import ExtrOcamlBasic.
-From DM Require Import Model.DriverSym.
+From DM Require Import Model.DriverSym Model.DriverRS.
 Extraction Language OCaml.
-Extraction "model.ml" d_sym_attrs d_symbol_sizes d_sl ss_of_index.
+Extraction "model.ml" d_sym_attrs d_symbol_sizes d_sl ss_of_index
+  d_gf_mulrow d_gf_divrow d_gf_misc d_generator d_rs_encode d_spec_gmulrow.
